@@ -208,7 +208,8 @@ func (rc *BrokerRowProtoConverter) deDupTags(m *protoMetricsV1.Metric) {
 	if len(kvs) < 2 {
 		return
 	}
-	sort.Sort(kvs)
+	// NOTE: need stable sort, which tag of the tags with same key is kept depends on the order after sorting
+	sort.Stable(kvs)
 	// tags with same key will keep order as they are appended after sorting
 	// high index key has higher priority
 	// use 2-pointer algorithm
